@@ -94,9 +94,10 @@ class Grid(col.MutableSequence):
         elif isinstance(v1, bool) or isinstance(v2, bool):
             return isinstance(v1, bool) and isinstance(v2, bool) and v1 == v2
         elif isinstance(v1, float) or isinstance(v2, float):
+            # (equal infinities have no difference to take: inf - inf is nan)
             return isinstance(v1, numbers.Number) and \
                    isinstance(v2, numbers.Number) and \
-                   abs(v1 - v2) < 0.000001
+                   (v1 == v2 or abs(v1 - v2) < 0.000001)
         else:
             return v1 == v2
 
